@@ -2,7 +2,9 @@
 The parser never reaches one of its `unwrap` / `unreachable!` / `assert!` sites:
 every pair tree the pest interpreter produces for the regenerated grammar has the
 shape (and the matched text) that `parse_asm` and its helpers rely on.  The only
-internal failure the model of the parser can report is running out of its own fuel.
+internal failure the model of the parser could report is running out of its own fuel
+(`parseAsm_panic_only_fuel`), and since the fuel is computed from the size of the pair
+tree it always suffices (`parseAsm_no_panic`).
 
 Structure of the proof:
 * `PestShape.lean` — grammar-independent: a denotational reading `Sem` of grammar
@@ -27,6 +29,346 @@ theorem parseAsm_panic_only_fuel (text : List Nat) (site : String)
   · cases h
   · rename_i pairs hp
     exact parseAsm_go_noPanic text.toArray _ pairs (parse_allTop text pairs hp) site h
+
+/-! ### the fuel suffices
+
+The walk's fuel is `4 * text.length + 100 + pairsSize pairs`; every walk function hands
+`fuel - 1` to its callees, which work on strictly smaller trees, and a list iteration
+spends one unit per element (each of size at least one).  So the fuel marker is never
+produced, independently of the shape of the tree. -/
+
+/-- the result is not the model's own fuel marker -/
+def ParseNoFuel {α : Type} (r : PR α) : Prop := r ≠ .error (.panic "fuel")
+
+theorem ParseNoFuel.ok {α : Type} (x : α) : ParseNoFuel (.ok x : PR α) := by
+  intro h; cases h
+
+theorem ParseNoFuel.map {α β : Type} (f : α → β) {r : PR α} (h : ParseNoFuel r) : ParseNoFuel (r.map f) := by
+  intro hs
+  cases r with
+  | error e => exact h (by simpa [Except.map] using hs)
+  | ok v => simp [Except.map] at hs
+
+theorem ParseNoFuel.of_error {α β : Type} {r : PR α} {e : ParseErr} (h : ParseNoFuel r) (he : r = .error e) :
+    ParseNoFuel (.error e : PR β) := by
+  intro hs
+  cases hs
+  exact h he
+
+theorem ParseNoFuel.site {α : Type} {s : String} (h : s ≠ "fuel") : ParseNoFuel (.error (.panic s) : PR α) := by
+  intro hs
+  injection hs with hs
+  injection hs with hs
+  exact h hs
+
+theorem pairSize_eq (p : Pair) : pairSize p = 1 + pairsSize p.kids := by
+  cases p; simp [pairSize, Pair.kids]
+
+theorem pairSize_pos (p : Pair) : 1 ≤ pairSize p := by
+  rw [pairSize_eq]; omega
+
+theorem pairsSize_cons (p : Pair) (ps : List Pair) : pairsSize (p :: ps) = pairSize p + pairsSize ps := by
+  simp [pairsSize]
+
+theorem pairsSize_nil : pairsSize [] = 0 := by simp [pairsSize]
+
+theorem parseRadix_go_parseNoFuel (radix : Nat) (cs : List Nat) (acc : Nat) :
+    ParseNoFuel (parseRadix.go radix cs acc) := by
+  induction cs generalizing acc with
+  | nil => simp only [parseRadix.go]; exact ParseNoFuel.ok _
+  | cons c cs ih =>
+    simp only [parseRadix.go]
+    split
+    · exact ih _
+    · exact ParseNoFuel.site (by decide)
+
+theorem parseRadix_parseNoFuel (s : List Nat) (radix : Nat) : ParseNoFuel (parseRadix s radix) := by
+  unfold parseRadix
+  split
+  · exact ParseNoFuel.site (by decide)
+  · exact (parseRadix_go_parseNoFuel radix s 0).map _
+
+theorem parseExpr_parseNoFuel (inp : Array Nat) (fuel : Nat) :
+    (∀ p, pairSize p ≤ fuel → ParseNoFuel (parseExpr inp fuel p)) ∧
+    (∀ ps, pairsSize ps + 1 ≤ fuel → ParseNoFuel (parseExprs inp fuel ps)) ∧
+    (∀ ps, pairsSize ps + 1 ≤ fuel → ParseNoFuel (parseTail inp fuel ps)) := by
+  induction fuel with
+  | zero =>
+    refine ⟨?_, ?_, ?_⟩
+    · intro p hp; have := pairSize_pos p; omega
+    · intro ps hp; omega
+    · intro ps hp; omega
+  | succ fuel ih =>
+    obtain ⟨ihE, ihEs, ihT⟩ := ih
+    refine ⟨?_, ?_, ?_⟩
+    · intro p hp
+      rw [pairSize_eq] at hp
+      simp only [parseExpr]
+      split
+      · split
+        · exact ParseNoFuel.site (by decide)
+        · rename_i first rest hk
+          rw [hk, pairsSize_cons] at hp
+          have hpos := pairSize_pos first
+          have h1 := ihE first (by omega)
+          have h2 := ihT rest (by omega)
+          cases h1e : parseExpr inp fuel first with
+          | error e => exact h1.of_error h1e
+          | ok f =>
+            cases h2e : parseTail inp fuel rest with
+            | error e => exact h2.of_error h2e
+            | ok tl => exact ParseNoFuel.ok _
+      · split
+        · exact (parseRadix_parseNoFuel _ _).map _
+        · split
+          · exact (parseRadix_parseNoFuel _ _).map _
+          · split
+            · exact (parseRadix_parseNoFuel _ _).map _
+            · split
+              · exact (parseRadix_parseNoFuel _ _).map _
+              · split
+                · exact (parseRadix_parseNoFuel _ _).map _
+                · split
+                  · exact ParseNoFuel.ok _
+                  · split
+                    · split
+                      · exact ParseNoFuel.ok _
+                      · exact ParseNoFuel.site (by decide)
+                    · split
+                      · split
+                        · rename_i name args hk
+                          rw [hk, pairsSize_cons] at hp
+                          have hpos := pairSize_pos name
+                          have h1 := ihEs args (by omega)
+                          cases h1e : parseExprs inp fuel args with
+                          | error e => exact h1.of_error h1e
+                          | ok as => exact ParseNoFuel.ok _
+                        · exact ParseNoFuel.site (by decide)
+                      · split
+                        · split
+                          · exact ParseNoFuel.ok _
+                          · exact ParseNoFuel.site (by decide)
+                        · exact ParseNoFuel.site (by decide)
+    · intro ps hps
+      cases ps with
+      | nil => simp only [parseExprs]; exact ParseNoFuel.ok _
+      | cons p ps =>
+        simp only [parseExprs]
+        rw [pairsSize_cons] at hps
+        have hpos := pairSize_pos p
+        have h1 := ihE p (by omega)
+        have h2 := ihEs ps (by omega)
+        cases h1e : parseExpr inp fuel p with
+        | error e => exact h1.of_error h1e
+        | ok f =>
+          cases h2e : parseExprs inp fuel ps with
+          | error e => exact h2.of_error h2e
+          | ok tl => exact ParseNoFuel.ok _
+    · intro ps hps
+      match ps, hps with
+      | [], _ => simp only [parseTail]; exact ParseNoFuel.ok _
+      | [_], _ => simp only [parseTail]; exact ParseNoFuel.site (by decide)
+      | o :: t :: rest, hps =>
+        simp only [parseTail]
+        rw [pairsSize_cons, pairsSize_cons] at hps
+        have hpo := pairSize_pos o
+        have hpt := pairSize_pos t
+        cases hop : opOfRule o.rule with
+        | none => exact ParseNoFuel.site (by decide)
+        | some op =>
+          have h1 := ihE t (by omega)
+          have h2 := ihT rest (by omega)
+          cases h1e : parseExpr inp fuel t with
+          | error e => exact h1.of_error h1e
+          | ok f =>
+            cases h2e : parseTail inp fuel rest with
+            | error e => exact h2.of_error h2e
+            | ok tl => exact ParseNoFuel.ok _
+
+theorem parsePushMacro_parseNoFuel (inp : Array Nat) (fuel : Nat) (p : Pair) (h : pairsSize p.kids ≤ fuel) :
+    ParseNoFuel (parsePushMacro inp fuel p) := by
+  unfold parsePushMacro
+  split
+  · intro hs; cases hs
+  · rename_i a hk
+    rw [hk, pairsSize_cons, pairsSize_nil] at h
+    split
+    · intro hs; cases hs
+    · exact ((parseExpr_parseNoFuel inp fuel).1 a (by omega)).map _
+  · intro hs; cases hs
+
+theorem parsePush_parseNoFuel (inp : Array Nat) (fuel : Nat) (p : Pair) (h : pairsSize p.kids ≤ fuel) :
+    ParseNoFuel (parsePush inp fuel p) := by
+  unfold parsePush
+  split
+  · rename_i sz operand hk
+    rw [hk, pairsSize_cons, pairsSize_cons, pairsSize_nil] at h
+    split
+    · exact ParseNoFuel.site (by decide)
+    · simp only []
+      split
+      · exact ParseNoFuel.site (by decide)
+      · have h1 := (parseExpr_parseNoFuel inp fuel).1 operand (by omega)
+        cases h1e : parseExpr inp fuel operand with
+        | error e => exact h1.of_error h1e
+        | ok e =>
+          simp only []
+          split
+          · split
+            · intro hs; cases hs
+            · exact ParseNoFuel.ok _
+          · exact ParseNoFuel.ok _
+  · exact ParseNoFuel.site (by decide)
+
+theorem parseAOp_parseNoFuel (inp : Array Nat) (fuel : Nat) :
+    (∀ p, pairSize p ≤ fuel → ParseNoFuel (parseAOp inp fuel p)) ∧
+    (∀ ps, pairsSize ps + 1 ≤ fuel → ParseNoFuel (parseBody inp fuel ps)) := by
+  induction fuel with
+  | zero =>
+    refine ⟨?_, ?_⟩
+    · intro p hp; have := pairSize_pos p; omega
+    · intro ps hp; omega
+  | succ fuel ih =>
+    obtain ⟨ihA, ihB⟩ := ih
+    refine ⟨?_, ?_⟩
+    · intro p hp
+      rw [pairSize_eq] at hp
+      simp only [parseAOp]
+      split
+      · split
+        · exact ParseNoFuel.site (by decide)
+        · rename_i k ks hk
+          rw [hk, pairsSize_cons, pairSize_eq k] at hp
+          split
+          · split
+            · rename_i decl stmts hkk
+              rw [hkk, pairsSize_cons] at hp
+              have hpd := pairSize_pos decl
+              split
+              · have hb := ihB stmts (by omega)
+                cases hbe : parseBody inp fuel stmts with
+                | error e => exact hb.of_error hbe
+                | ok body => exact ParseNoFuel.ok _
+              · exact ParseNoFuel.site (by decide)
+            · exact ParseNoFuel.site (by decide)
+          · split
+            · split
+              · rename_i name args hkk
+                rw [hkk, pairsSize_cons] at hp
+                have hpn := pairSize_pos name
+                have hb := (parseExpr_parseNoFuel inp fuel).2.1 args (by omega)
+                cases hbe : parseExprs inp fuel args with
+                | error e => exact hb.of_error hbe
+                | ok as => exact ParseNoFuel.ok _
+              · exact ParseNoFuel.site (by decide)
+            · split
+              · split
+                · rename_i decl body rest hkk
+                  rw [hkk, pairsSize_cons, pairsSize_cons] at hp
+                  split
+                  · have hb := (parseExpr_parseNoFuel inp fuel).1 body (by omega)
+                    cases hbe : parseExpr inp fuel body with
+                    | error e => exact hb.of_error hbe
+                    | ok b => exact ParseNoFuel.ok _
+                  · exact ParseNoFuel.site (by decide)
+                · exact ParseNoFuel.site (by decide)
+              · exact ParseNoFuel.site (by decide)
+      · split
+        · split
+          · exact ParseNoFuel.ok _
+          · exact ParseNoFuel.site (by decide)
+        · split
+          · exact parsePush_parseNoFuel inp fuel p (by omega)
+          · split
+            · split
+              · exact ParseNoFuel.ok _
+              · exact ParseNoFuel.site (by decide)
+            · exact ParseNoFuel.site (by decide)
+    · intro ps hps
+      cases ps with
+      | nil => simp only [parseBody]; exact ParseNoFuel.ok _
+      | cons p ps =>
+        simp only [parseBody]
+        rw [pairsSize_cons] at hps
+        have hpos := pairSize_pos p
+        have hone : ParseNoFuel (if p.rule = Gen.R_push_macro then parsePushMacro inp fuel p else parseAOp inp fuel p) := by
+          split
+          · exact parsePushMacro_parseNoFuel inp fuel p (by rw [pairSize_eq] at hps; omega)
+          · exact ihA p (by omega)
+        have hrest := ihB ps (by omega)
+        cases h1e : (if p.rule = Gen.R_push_macro then parsePushMacro inp fuel p else parseAOp inp fuel p) with
+        | error e => exact hone.of_error h1e
+        | ok o =>
+          cases h2e : parseBody inp fuel ps with
+          | error e => exact hrest.of_error h2e
+          | ok os => exact ParseNoFuel.ok _
+
+theorem pathOf_parseNoFuel (inp : Array Nat) (p : Pair) : ParseNoFuel (pathOf inp p) := by
+  unfold pathOf
+  split
+  · intro hs; cases hs
+  · exact ParseNoFuel.ok _
+
+theorem oneePath_parseNoFuel (inp : Array Nat) (args : List Pair) : ParseNoFuel (oneePath inp args) := by
+  unfold oneePath
+  split
+  · intro hs; cases hs
+  · exact pathOf_parseNoFuel inp _
+  · rename_i p _ _
+    have := pathOf_parseNoFuel inp p
+    cases h : pathOf inp p with
+    | error e => exact this.of_error h
+    | ok _ => intro hs; cases hs
+
+theorem parseBuiltin_parseNoFuel (inp : Array Nat) (fuel : Nat) (p : Pair) (h : pairSize p ≤ fuel) :
+    ParseNoFuel (parseBuiltin inp fuel p) := by
+  unfold parseBuiltin
+  split
+  · rename_i k hk
+    rw [pairSize_eq, hk, pairsSize_cons, pairsSize_nil, pairSize_eq k] at h
+    split
+    · exact (oneePath_parseNoFuel inp _).map _
+    · split
+      · exact (oneePath_parseNoFuel inp _).map _
+      · split
+        · exact (oneePath_parseNoFuel inp _).map _
+        · split
+          · exact (parsePushMacro_parseNoFuel inp fuel k (by omega)).map _
+          · exact ParseNoFuel.site (by decide)
+  · exact ParseNoFuel.site (by decide)
+  · exact ParseNoFuel.site (by decide)
+
+theorem parseAsm_go_parseNoFuel (inp : Array Nat) (fuel : Nat) (ps : List Pair) (h : pairsSize ps ≤ fuel) :
+    ParseNoFuel (parseAsm.go inp fuel ps) := by
+  induction ps with
+  | nil => simp only [parseAsm.go]; exact ParseNoFuel.ok _
+  | cons p ps ih =>
+    simp only [parseAsm.go]
+    rw [pairsSize_cons] at h
+    have ih' := ih (by omega)
+    split
+    · exact ih'
+    · have hone : ParseNoFuel (if p.rule = Gen.R_builtin then parseBuiltin inp fuel p else (parseAOp inp fuel p).map Node.op) := by
+        split
+        · exact parseBuiltin_parseNoFuel inp fuel p (by omega)
+        · exact ((parseAOp_parseNoFuel inp fuel).1 p (by omega)).map _
+      cases h1e : (if p.rule = Gen.R_builtin then parseBuiltin inp fuel p else (parseAOp inp fuel p).map Node.op) with
+      | error e => exact hone.of_error h1e
+      | ok n =>
+        cases h2e : parseAsm.go inp fuel ps with
+        | error e => exact ih'.of_error h2e
+        | ok ns => exact ParseNoFuel.ok _
+
+/-- with the size-based fuel the parser model reports no internal failure at all -/
+theorem parseAsm_no_panic (text : List Nat) (site : String) : parseAsm text ≠ .error (.panic site) := by
+  intro h
+  have hs := parseAsm_panic_only_fuel text site h
+  subst hs
+  unfold parseAsm at h
+  split at h
+  · cases h
+  · rename_i pairs hp
+    exact parseAsm_go_parseNoFuel text.toArray _ pairs (by omega) h
 
 end Asm
 end EtkVerif
